@@ -210,7 +210,7 @@ impl BitVector {
     #[must_use]
     #[inline]
     pub fn get_bits(&self, index: usize, len: usize) -> Option<u64> {
-        if (len == 0) | (len > 64) | (index + len > self.n_bits) {
+        if (len == 0) | (len > 64) | index.checked_add(len).map_or(true, |end| end > self.n_bits) {
             return None;
         }
         // SAFETY: safe access due to the above checks
@@ -1039,7 +1039,7 @@ impl BitVectorMut {
     #[must_use]
     #[inline]
     pub fn get_bits(&self, index: usize, len: usize) -> Option<u64> {
-        if (len == 0) | (len > 64) | (index + len >= self.n_bits) {
+        if (len == 0) | (len > 64) | index.checked_add(len).map_or(true, |end| end >= self.n_bits) {
             return None;
         }
         // SAFETY: safe access due to the above checks
